@@ -659,3 +659,38 @@ pub fn read_sizes_strategy() -> BoxedStrategy<Vec<u32>> {
     ]
     .boxed()
 }
+
+/// Makes input and preset dictionary related, the way a preset dictionary is meant to be used: the
+/// dictionary is made to end with the first 3-8 bytes of a string that occurs earlier in it, the
+/// input starts by continuing that string for one byte and then differently, keeps copying pieces
+/// of the dictionary (4-150 bytes, random offsets) between pieces of the original input, and later
+/// repeats the earlier string in full.  Returns (dictionary, input).
+pub fn weave_preset(preset: &[u8], base: &[u8], seed: u64) -> (Vec<u8>, Vec<u8>) {
+    let mut r = Prng::new(seed);
+    let mut dict = preset.to_vec();
+    if dict.len() < 40 {
+        return (dict, base.to_vec());
+    }
+    let p = r.below((dict.len() - 32) as u64) as usize;
+    let k = 3 + r.below(6) as usize;
+    let s: Vec<u8> = dict[p..p + 32].to_vec();
+    dict.extend_from_slice(&s[..k]);
+    let mut out: Vec<u8> = Vec::with_capacity(base.len() + 256);
+    out.push(s[k]);
+    out.push(s[k + 1] ^ 0x55);
+    let mut b = 0usize;
+    while b < base.len() {
+        let n = (1 + r.below(300) as usize).min(base.len() - b);
+        out.extend_from_slice(&base[b..b + n]);
+        b += n;
+        let len = 4 + r.below(147) as usize;
+        let off = r.below(dict.len() as u64) as usize;
+        let end = (off + len).min(dict.len());
+        out.extend_from_slice(&dict[off..end]);
+        if r.below(4) == 0 {
+            out.extend_from_slice(&s);
+        }
+    }
+    out.extend_from_slice(&s);
+    (dict, out)
+}
